@@ -36,7 +36,7 @@ def judge_unit(o):
         if o["p_" + t]:
             bad.append(("point-" + t, "std::is_%s<QuantityPoint, Zero> is true" % t))
     for f in L.bits(o["forms"], L.FORMS):
-        bad.append(("form=" + re.sub(r"\W+", "_", f).strip("_"), "`%s` does not yield 0" % f))
+        bad.append(("form=" + f[0], "`%s` does not yield 0" % f[1]))
     for it in L.bits(o["items"], L.ITEMS):
         bad.append(("item=" + it, "`%s` disagrees with the raw operator on (x, 0) for one of 0, 1, max, lowest, -1 (NaN/inf/-0.0)" % it))
     return bad
@@ -54,8 +54,11 @@ def check(run):
     def mark(name):
         phase[name] = round(run.elapsed() - sum(phase.values()), 1)
 
+    written = [0]
+
     def report(key, what, art):
-        if run.match_known(key) is None:
+        if run.match_known(key) is None and written[0] < 60:   # finish() prints at most 50
+            written[0] += 1
             run.violation(key, what, run.write_replay(key, dict(art, what=what)))
         else:
             run.violation(key, what)
@@ -69,7 +72,7 @@ def check(run):
             meta[rid] = (u, rep)
     srecs, smeta = L.scalar_records(len(recs), R11)
     allrecs = recs + srecs
-    chunk = max(8, -(-len(allrecs) // (core.NCPU * 2)))
+    chunk = max(8, -(-len(allrecs) // 12))   # ~12 TUs per configuration
     outs = dict(zip([c.name for c in cfgs], core.pmap(
         lambda c: psx.run_dump(c, allrecs, os.path.join(run.wd, "dump"), "z", DUMP_PREAMBLE, chunk=chunk), cfgs, workers=3)))
     n_unit_facts = n_scalar = 0
